@@ -24,7 +24,7 @@ def cases(tier, rng, run):
         # (a third of the calls leave the last 1-2 parameters at their DEFAULT value: a default is an argument like any other)
         omit = rng.choice([0, 0, 0, 0, 1, 2])
         kind = "method" if rng.random() < 0.2 else "func"
-        style = rng.choice(["pos", "kw", "mixed", "fwd", "kwonly", "posonly"] + (["kwself", "kwself"] if kind == "method" else []))
+        style = rng.choice(["pos", "kw", "kwrev", "mixed", "fwd", "kwonly", "posonly"] + (["kwself", "kwself"] if kind == "method" else []))
         out.append(Case(c.call_line(kind, style, prov=(("self" if c.scope else "-") if kind == "method" else None), omit=omit, explicit=rng.random() < 0.5), "call", {"ctx": c}))
     # functions whose ONLY dltype hint is the return annotation (factories, loaders): no parameter at all, or parameters of plain types —
     # the result is checked all the same: the body has run once, the violating value is not handed to the caller
